@@ -403,3 +403,33 @@ func letteredKey(p *Prog, g *ssa.Global, customOnly bool) string {
 	}
 	return ""
 }
+
+// UnicodeFolds lists the calls that fold the case of raw case-insensitive text with a Unicode-wide function
+// (strings.ToLower, ToUpper, EqualFold, ToTitle): such a fold maps U+212A KELVIN SIGN to k and U+017F to s, so text
+// that is not an ASCII spelling of a keyword is accepted as one.
+func (ct *CaseTaint) UnicodeFolds(fn *ssa.Function) []CaseSink {
+	raw, _ := ct.analyse(fn)
+	var out []CaseSink
+	Instrs(fn, func(in ssa.Instruction) {
+		x, ok := in.(*ssa.Call)
+		if !ok {
+			return
+		}
+		callee := x.Call.StaticCallee()
+		if callee == nil || callee.Pkg == nil || callee.Pkg.Pkg.Path() != "strings" {
+			return
+		}
+		switch callee.Name() {
+		case "ToLower", "ToUpper", "EqualFold", "ToTitle":
+		default:
+			return
+		}
+		for _, a := range x.Call.Args {
+			if raw[a] != "" {
+				out = append(out, CaseSink{fn, in, "", "strings." + callee.Name(), raw[a]})
+				return
+			}
+		}
+	})
+	return out
+}
